@@ -75,8 +75,10 @@ pub mod recv {
         fn interchain_token_service(env: &Env) -> Address {
             env.storage().instance().get(&symbol_short!("its")).unwrap()
         }
-        fn execute_with_interchain_token(env: &Env, _source_chain: SString, _message_id: SString, _source_address: Bytes, payload: Bytes, _token_id: BytesN<32>, _token_address: Address, amount: i128) {
+        fn execute_with_interchain_token(env: &Env, source_chain: SString, message_id: SString, source_address: Bytes, payload: Bytes, token_id: BytesN<32>, token_address: Address, amount: i128) {
             Self::validate(env);
+            // publish exactly what the service handed over (compared with the model's `evAppExecuted`)
+            env.events().publish((symbol_short!("recv_exec"),), (source_chain, message_id, source_address, payload.clone(), token_id, token_address, amount));
             let n: u32 = env.storage().instance().get(&symbol_short!("count")).unwrap_or(0);
             env.storage().instance().set(&symbol_short!("count"), &(n + 1));
             env.storage().instance().set(&symbol_short!("last"), &(payload, amount));
@@ -113,6 +115,7 @@ fn source_const(name: &str) -> String {
 }
 
 pub struct ItsWorld {
+    pub recv_apps: Vec<Address>,
     pub gw: GwWorld,
     pub its: Option<Address>,
     pub gs: Option<Address>,
@@ -124,7 +127,7 @@ type R<T, E, F> = Result<Result<Result<T, E>, Result<F, soroban_sdk::InvokeError
 
 impl ItsWorld {
     pub fn new() -> Self {
-        ItsWorld { gw: GwWorld::new(), its: None, gs: None, hub_chain: vec![], hub_addr: vec![] }
+        ItsWorld { recv_apps: vec![], gw: GwWorld::new(), its: None, gs: None, hub_chain: vec![], hub_addr: vec![] }
     }
     fn client(&self) -> InterchainTokenServiceClient<'static> {
         InterchainTokenServiceClient::new(&self.gw.env, self.its.as_ref().expect("its not constructed"))
@@ -134,6 +137,8 @@ impl ItsWorld {
         for a in [&self.its, &self.gw.gw, &self.gs].into_iter().flatten() {
             watch.push(a.clone());
         }
+        // recipient applications publish what they were handed
+        watch.extend(self.recv_apps.iter().cloned());
         if watch.len() < 3 {
             watch.push(Addr::c(255).sdk(&self.gw.env)); // keep the `E@addr` form
             watch.push(Addr::c(254).sdk(&self.gw.env));
@@ -224,6 +229,7 @@ impl ItsWorld {
             "recv.new" => {
                 let a = Addr::parse(t[1]).sdk(&env);
                 env.register_at(&a, RecvApp, (self.its.clone().unwrap(),));
+                self.recv_apps.push(a.clone());
                 let _ = self.events();
                 ("ok".into(), String::new())
             }
